@@ -653,6 +653,8 @@ def rule_absent(ctx, f):
 def rule_name_tables(ctx, f):
     ctx.rule("C15-ENUM-H", "hand-written array-shaped models whose kind is a name (destinations): the name the writer emits for a variant is the name under "
              "which the reader builds that variant")
+    ctx.rule("C15-ARR-len", "destinations are arrays read by position: for every view the writer appends, on every path to its Ok result, at least as many elements as the "
+             "highest position the reader asks for, and removes none")
     from tables import str_arms, exclusive_regions, enum_switches, region_aggregates
     n = 0
     for adt, reader_id, wself in (("object::types::DestView", "object::types::Dest::from_array", "object::types::Dest"),
@@ -687,6 +689,35 @@ def rule_name_tables(ctx, f):
                             if a_[0] == "const" and isinstance(a_[1], dict) and "str" in a_[1]:
                                 wtab.setdefault(vn, set()).add(a_[1]["str"])
         ctx.floor("C15-ENUM-H", len(rtab), 5, "variants of %s the reader builds from a name" % adt.split("::")[-1])
+        if adt.endswith("DestView"):
+            # seeded C15-9: the reader addresses the operands of a destination by position (`array.get(4)`), so the writer has to put an element
+            # at every position the reader asks for - on every path, and without taking one away again
+            ridx = {}
+            for a in arms:
+                ks = [F.const_int(t["args"][-1]) for r in regs[a["const"]] | {a["true_bb"]} for t in [rb["blocks"][r]["term"]]
+                      if t["k"] == "call" and last_seg(F.callee_name(t)) == "get" and t["args"] and F.const_int(t["args"][-1]) is not None]
+                ridx[a["const"]] = max(ks) if ks else 0
+            okb = {i for i, bb in enumerate(wb["blocks"]) for st in bb["stmts"]
+                   if st[0] == "assign" and st[1] == [0] and st[2][0] == "aggregate" and st[2][1].get("variant") == "Ok"}
+            removers = sorted({last_seg(F.callee_name(t)) for bi, t in F.calls(wb)} & {"pop", "truncate", "remove", "swap_remove", "clear", "drain", "retain", "split_off", "dedup"})
+            ctx.check(not removers and bool(okb), "C15-ARR-len", "Dest::to_primitive#no-removal", "the destination writer takes elements out of the array it builds (%s): the reader "
+                      "addresses the operands by position and fails on a shorter array" % removers, wb["span"], detail="no pop / truncate / remove in the writer")
+            npos = 0
+            for (i, pl, arms2, other) in enum_switches(wb, adt, f):
+                regs2 = exclusive_regions(wcfg, {vsn[k]: tg for k, tg in arms2.items()})
+                for k, tg in arms2.items():
+                    vn = vsn[k]
+                    names = rtab.get(vn)
+                    if not names:
+                        continue
+                    need = max(ridx.get(nm, 0) for nm in names)
+                    pushes = [r for r in regs2.get(vn, set()) | {tg} if wb["blocks"][r]["term"]["k"] == "call" and last_seg(F.callee_name(wb["blocks"][r]["term"])) == "push"]
+                    sure = [r for r in pushes if wcfg.all_paths_pass(tg, okb, {r})]
+                    npos += 1
+                    ctx.check(len(sure) >= need, "C15-ARR-len", "Dest::to_primitive#%s.positions" % vn, "for %s the writer appends %d element(s) on every path (%d somewhere), the "
+                              "reader reads position %d of the array: a value written on the short path cannot be read back" % (vn, len(sure), len(pushes), need), wb["span"],
+                              detail="%s: %d unconditional pushes after the page >= highest position read %d" % (vn, len(sure), need))
+            ctx.floor("C15-ARR-len", npos, 7, "destination views whose written length is compared with the positions the reader asks for")
         for vn in sorted(rtab):
             if adt.endswith("ColorSpace") and not wtab.get(vn):
                 continue        # a variant the writer refuses (Separation / DeviceN: known findings of C15-VARIANTS) writes no name
